@@ -405,3 +405,78 @@ def impl_events_via(front, data, tname="Stream", cc=None, mode="S"):
     except Exception as e:  # noqa
         lines.append(f"R crash {type(e).__name__}")
     return lines
+
+
+# --------------------------------------------------------------------------- printers
+_ROW = _re.compile(r"^\x1b\[34m(.*?)\x1b\[0m *\x1b\[30m((?:\|   )*)\x1b\[0m\x1b\[92m(.*?)\x1b\[0m *\x1b\[33m(.*?)\x1b\[0m ?(?:\x1b\[33m(.*)\x1b\[0m)?$", _re.S)
+_INFO = _re.compile(r"^\x1b\[31m(.*)\x1b\[0m$", _re.S)
+_EROW = _re.compile(r"^\x1b\[34m(.*?)\x1b\[0m *\x1b\[92m(.*?)\x1b\[0m\x1b\[33m = (.*)\x1b\[0m$", _re.S)
+
+
+def impl_print(mode, tname, cc, enc, data):
+    """rows of Pretty.unmarshal and Events.unmarshal over the events of a decode (real code), canonical"""
+    from tpmstream.io.events import Events
+    from tpmstream.io.pretty import Pretty
+    tp = resolve_type(tname)
+    kwargs = dict(tpm_type=tp, buffer=bytes(data), abort_on_error=(mode == "S"))
+    if cc is not None:
+        kwargs["command_code"] = TPM_CC(cc)
+    if enc:
+        kwargs["parameter_encryption"] = True
+    evs = []
+    try:
+        for ev in Binary.marshal(**kwargs):
+            evs.append(ev)
+    except (ConstraintViolatedError, InputStreamBytesDepletedError, InputStreamSuperfluousBytesError):
+        pass
+    except Exception as e:  # noqa
+        return [f"P decode-crash {type(e).__name__}"]
+    infos = [f"Warning: {e.error}" for e in evs if not isinstance(e, MarshalEvent)]
+    used = [False] * len(infos)
+    try:
+        reenc = b"".join(Binary.unmarshal(evs)).hex() or "-"
+    except Exception as e:  # noqa
+        reenc = "crash"
+
+    def info_index(text):
+        for k, t in enumerate(infos):
+            if not used[k] and t == text:
+                used[k] = True
+                return k
+        return "?"
+    out = []
+    try:
+        for line in Pretty.unmarshal(iter(evs)):
+            m = _INFO.match(line)
+            if m:
+                out.append(f"P! {info_index(m.group(1))}")
+                continue
+            m = _ROW.match(line)
+            if not m:
+                out.append("P ?unparsed " + _ANSI.sub("", line)[:60])
+                continue
+            t, indent, name, hx, val = m.groups()
+            t = t.strip() or "-"
+            val = val if val is not None else ""
+            if t == "-":
+                val = val.split("  ")[0]          # attribute rows: the bits, not the free-text details
+            out.append(f"P {t} {len(indent) // 4} {name.strip()} {hx.strip() or '-'} {val}")
+    except Exception as e:  # noqa
+        out.append(f"P crash {type(e).__name__}")
+    out.append(f"U {reenc} {len(evs)}")
+    used = [False] * len(infos)
+    try:
+        for line in Events.unmarshal(iter(evs)):
+            m = _INFO.match(line)
+            if m:
+                out.append(f"E! {info_index(m.group(1))}")
+                continue
+            m = _EROW.match(line)
+            if not m:
+                out.append("E ?unparsed " + _ANSI.sub("", line)[:60])
+                continue
+            t, path, val = m.groups()
+            out.append(f"E {t.strip()} {path.strip() or '.'} {val}")
+    except Exception as e:  # noqa
+        out.append(f"E crash {type(e).__name__}")
+    return out
